@@ -37,7 +37,7 @@ def run_harness(hbin, seed, tier, only=None, cases=None):
     if p.returncode != 0:
         raise RuntimeError("psbt engine failed (exit %s): %s" % (p.returncode, p.stderr[-2000:]))
     out = {"inp": {}, "case": {}, "desc": {}, "hist": [], "probe_viol": [], "summary": None, "mall": None,
-           "gen_error": [], "plans": 0, "pkh": [], "keyhash": []}
+           "gen_error": [], "plans": 0, "pkh": [], "keyhash": [], "pkhtap": [], "xl": []}
     for line in p.stdout.splitlines():
         if not line:
             continue
@@ -55,6 +55,10 @@ def run_harness(hbin, seed, tier, only=None, cases=None):
             out["probe_viol"].append(d)
         elif t == "pkh":
             out["pkh"].append((d["inp"], d["h"], d["r"]))
+        elif t == "pkhtap":
+            out["pkhtap"].append((d["inp"], d["h"], d["r"]))
+        elif t == "xl":
+            out["xl"].append((d["k"], d["x"]))
         elif t == "keyhash":
             out["keyhash"].append((d["k"], d["h"]))
         elif t == "probe-stats":
@@ -320,7 +324,7 @@ def build_gen(data, hists):
     out = ["(* generated by tools/props/c14.py from the psbt engine's observations; do not edit *)",
            "From Coq Require Import List Bool NArith.", "Import ListNotations.",
            "From Verif Require Import PsbtModel PsbtCasesDefs.", "Local Open Scope N_scope.", ""]
-    used_inputs_extra = set(iid for (iid, _, _) in data["pkh"])
+    used_inputs_extra = set(iid for (iid, _, _) in data["pkh"]) | set(iid for (iid, _, _) in data["pkhtap"])
     for iid in sorted(used_inputs | used_inputs_extra):
         out.append(g.inp_def(iid))
     out.append("")
@@ -333,7 +337,13 @@ def build_gen(data, hists):
     for (iid, h, r) in data["pkh"]:
         used_inputs_extra.add(iid)
         pkh_rows.append("(i%d,%d,%s)" % (iid, g.I(h), copt(None if r is None else g.I(r))))
-    out.append("Definition pkh_tab : list (N * N) := %s." % cmap([(g.I(k), g.I(h)) for k, h in data["keyhash"]]))
+    out.append("Definition pkh_tab : list (N * N) := %s." % cmap(set((g.I(k), g.I(h)) for k, h in data["keyhash"])))
+    out.append("Definition xl_tab : list (N * N) := %s." % cmap(set((g.I(k), g.I(x)) for k, x in data["xl"])))
+    tap_rows = ["(i%d,%d,%s)" % (iid, g.I(h), copt(None if r is None else g.I(r))) for (iid, h, r) in data["pkhtap"]]
+    for n in range(0, max(len(tap_rows), 1), 1500):
+        out.append("Definition pkh_tap_obs_%d : list (pinput * N * option N) := [%s]." % (n // 1500, ";".join(tap_rows[n:n + 1500])))
+    out.append("Definition pkh_tap_obs : list (pinput * N * option N) := %s." % " ++ ".join(
+        "pkh_tap_obs_%d" % (n // 1500) for n in range(0, max(len(tap_rows), 1), 1500)))
     for n in range(0, max(len(pkh_rows), 1), 1500):
         out.append("Definition pkh_obs_%d : list (pinput * N * option N) := [%s]." % (n // 1500, ";".join(pkh_rows[n:n + 1500])))
     out.append("Definition pkh_obs : list (pinput * N * option N) := %s." % " ++ ".join(
@@ -348,7 +358,7 @@ def build_gen(data, hists):
     meta = {"tries": n_tries, "distinct_try_keys": len(global_try), "conflicts": conflicts, "unstable": unstable,
             "inputs_defined": len(used_inputs), "mall_false": mall_false, "mall_true": mall_true,
             "keep_unknown": bool(mp.get("keeps_unknown", False)),
-            "interned_values": len(g.I.ids), "pkh_rows": len(data["pkh"])}
+            "interned_values": len(g.I.ids), "pkh_rows": len(data["pkh"]) + len(data["pkhtap"])}
     return "\n".join(out) + "\n", meta
 
 
